@@ -16,7 +16,9 @@ mod rng;
 #[macro_use]
 mod shapes;
 
+mod e_c01;
 mod e_c05;
+mod e_emit;
 mod e_c06;
 mod e_c16;
 mod e_c18;
@@ -72,6 +74,9 @@ fn main() {
     panicmon::install();
     let t0 = std::time::Instant::now();
     let mut rep: Report = match engine.as_str() {
+        "c01" => e_c01::run(&ctx),
+        "c02" => e_emit::run(&ctx, false),
+        "c04" => e_emit::run(&ctx, true),
         "c05" => e_c05::run(&ctx),
         "c06" => e_c06::run(&ctx),
         "c16" => e_c16::run(&ctx),
